@@ -27,6 +27,7 @@ RULE = ("cases = (frame with 2 geometry columns laid out so that partitions have
 ASSUMPTIONS = ["partitions whose recorded extent is NaN neither overlap nor miss: only the no-row-lost "
                "clause applies to them", "exactness domain for the row-level C01 oracle (integer coordinates)"]
 USE_CONTRACTS = True      # in-situ icontract monitors (vmon/contracts.py)
+SPLIT_KINDS = True         # thorough tier: one shard per geometry kind
 DECIDING_COUNTERS = ["datasets_checked", "bounds_rows_checked", "prunes_checked"]
 
 
